@@ -269,6 +269,13 @@ theorem silent_worker_is_read_as_success :
 /-- every path through the batch worker ends in exactly one send of its result (regenerated) -/
 theorem batch_worker_always_answers : Generated.batchWorkerAlwaysAnswers = true := by decide
 
+/-- the LTS above has no step that ends the writer's wait other than a delivered answer or its own
+timeout; in the code that rests on the channel being closed by nobody but the waiter (its deferred
+`Remove`): a channel closed under a waiting writer yields the zero value, which every write path reads
+as "applied, no error" (seeded C11-F released the writers when a replica is unloaded) -/
+theorem waiter_channel_closed_only_by_the_waiter :
+    Generated.notificationChannelClosedOnlyByItsWaiter = true := by decide
+
 /-- non-vacuity: three workers, all delivered, then the channel is closed -/
 example : ∃ c, BatchFanIn.Reach 3 true c ∧ BatchFanIn.Collected 3 c ∧ c.closed = true := by
   refine ⟨⟨0, 3, 0, true⟩, ?_, rfl, rfl⟩
